@@ -3,7 +3,7 @@
   equal the formulas the encoder cites offsets with, every out-of-band group sits at its cited
   offset, the directory serves the core stream of each type (extras of the same type are overridden).
 -/
-import MdProofs.Lemmas.EncodeStreams
+import MdProofs.Lemmas.EncodeNames
 import MdProofs.Lemmas.BytesStreams
 namespace MdModel.Encode
 open MdModel MdModel.Dump MdModel.Gen.Layouts MdModel.Gen.LayoutsC02
@@ -17,16 +17,6 @@ theorem moduleRecs_length (off : Nat) (ms : List MModule) : (moduleRecs off ms).
   induction ms generalizing off with
   | nil => rfl
   | cons m ms ih => simp [moduleRecs, ih]
-
-theorem nameRecs_length (off : Nat) (ns : List (Nat × List Nat)) : (nameRecs off ns).length = ns.length := by
-  induction ns generalizing off with
-  | nil => rfl
-  | cons n ns ih => obtain ⟨id, nm⟩ := n; simp [nameRecs, ih]
-
-theorem unloadedRecs_length (off : Nat) (us : List MUnloaded) : (unloadedRecs off us).length = us.length := by
-  induction us generalizing off with
-  | nil => rfl
-  | cons u us ih => simp [unloadedRecs, ih]
 
 theorem encCv_length (e : Endian) (cv : MCv) : (encCv e cv).length = cvSize cv := by
   cases cv <;> simp [encCv, cvSize] <;> omega
@@ -177,7 +167,7 @@ theorem coreStreams_types (m : DumpModel) (e : Endian) (f : MemForm) :
 /-! ## well-formed models; `Minidump::read` on an encoded file -/
 
 /-- A model the wire format can carry: every number fits its field, the file stays below 4 GiB
-    (every RVA is a u32), names are Unicode scalar values, and the raw extra streams only use
+    (every RVA is a u32), names are Unicode scalar values, unloaded modules have a good image size, and the raw extra streams only use
     types the encoder emits again afterwards (so the real streams are the last of their type). -/
 structure WellFormed (m : DumpModel) (f : MemForm) : Prop where
   flags : m.flags < 2 ^ 64
@@ -185,6 +175,8 @@ structure WellFormed (m : DumpModel) (f : MemForm) : Prop where
   threads : ∀ t ∈ m.threads, ThreadFits t
   regions : ∀ r ∈ m.memory, RegionFits r
   memInfo : ∀ i ∈ m.memInfo, MemInfoFits i
+  names : ∀ n ∈ m.threadNames, n.1 < 2 ^ 32 ∧ ValidName n.2
+  unloaded : ∀ u ∈ m.unloaded, UnloadedFits u
   extra : ∀ x ∈ m.extra, x.1 ∈ coreTypes m f
 
 theorem coreTypes_lt (m : DumpModel) (f : MemForm) : ∀ t ∈ coreTypes m f, t < 2 ^ 32 := by
@@ -284,6 +276,20 @@ theorem core_memory64 : lastOf ST_MEMORY64_LIST (coreStreams m e .mem64) =
     some (encMemory64List e (oobOffsets m .mem64).memory m.memory) := by
   unfold coreStreams
   cases m.exception <;> cases m.sysInfo <;>
+    simp [lastOf, ST_THREAD_LIST, ST_MODULE_LIST, ST_MEMORY_LIST, ST_MEMORY64_LIST, ST_MEMORY_INFO_LIST, ST_THREAD_NAMES,
+      ST_UNLOADED_MODULE_LIST, ST_EXCEPTION, ST_SYSTEM_INFO, ST_SystemInfoStream]
+
+theorem core_names : lastOf ST_THREAD_NAMES (coreStreams m e f) =
+    some (encThreadNames e m.pad (oobOffsets m f).names m.threadNames) := by
+  unfold coreStreams
+  cases f <;> cases m.exception <;> cases m.sysInfo <;>
+    simp [lastOf, ST_THREAD_LIST, ST_MODULE_LIST, ST_MEMORY_LIST, ST_MEMORY64_LIST, ST_MEMORY_INFO_LIST, ST_THREAD_NAMES,
+      ST_UNLOADED_MODULE_LIST, ST_EXCEPTION, ST_SYSTEM_INFO, ST_SystemInfoStream]
+
+theorem core_unloaded : lastOf ST_UNLOADED_MODULE_LIST (coreStreams m e f) =
+    some (encUnloadedList e (oobOffsets m f).unloaded m.unloaded) := by
+  unfold coreStreams
+  cases f <;> cases m.exception <;> cases m.sysInfo <;>
     simp [lastOf, ST_THREAD_LIST, ST_MODULE_LIST, ST_MEMORY_LIST, ST_MEMORY64_LIST, ST_MEMORY_INFO_LIST, ST_THREAD_NAMES,
       ST_UNLOADED_MODULE_LIST, ST_EXCEPTION, ST_SYSTEM_INFO, ST_SystemInfoStream]
 
